@@ -774,3 +774,13 @@ def run(fx, rep, tier):
     r3_bias(facts, rep, tabs)
     r4_vocabulary(facts, rep, tabs, tier)
     r5_unit_expr(facts, rep)
+    rep.rule("C05-R6", "units that cancel inside one unit expression disappear (m*s/s = m): canonical form of the unit maps "
+                       "(shared with C02-R1)")
+    from . import c02
+    sub = type(rep)(rep.prop, rep.tier)
+    c02.r1_canonical(facts, sub)
+    for o in sub.obls:
+        o["rule"] = "C05-R6"
+        rep.obls.append(o)
+    for f in sub.floors:
+        rep.floors.append(("C05-R6",) + tuple(f[1:]))
